@@ -343,8 +343,11 @@ func (state *RuntimeState) u2fSignResponse(w http.ResponseWriter, r *http.Reques
 		http.Error(w, "registration missing", http.StatusBadRequest)
 		return
 	}
+	// A challenge is a one time value: take it out of the map while holding the
+	// lock so that concurrent responses cannot both use it.
 	state.Mutex.Lock()
 	localAuth, ok := state.localAuthData[authData.Username]
+	delete(state.localAuthData, authData.Username)
 	state.Mutex.Unlock()
 	if !ok || localAuth.ExpiresAt.Before(time.Now()) ||
 		localAuth.U2fAuthChallenge == nil {
